@@ -12,6 +12,60 @@ fn seg(resp: Resp, quant: Quant) -> Seg {
     Seg { resp, quant }
 }
 
+mod composite {
+    //! Single-use returns of composite outputs with an owned part: either the mock refuses them at
+    //! construction ("No Mutex API available") or the call yields exactly the configured value -
+    //! never another one.
+    use core::task::Poll;
+    use unimock::*;
+
+    #[unimock(api = CMock)]
+    pub trait C14 {
+        fn optres(&self) -> Option<Result<&u32, String>>;
+        fn res(&self) -> Result<&u32, String>;
+        fn vecres(&self) -> Vec<Result<&u32, String>>;
+        fn pollres(&self) -> Poll<Result<&u32, String>>;
+        fn tup(&self) -> (&u32, String);
+        fn optopt(&self) -> Option<Option<String>>;
+    }
+
+    macro_rules! cells {
+        ($out:expr, $method:ident, $call:ident, $label:expr, $value:expr) => {{
+            let want = format!("{:?}", $value);
+            for path in 0..3usize {
+                let built = vh::obs::catch(|| match path {
+                    0 => Unimock::new(CMock::$method.some_call(matching!()).returns($value)).no_verify_in_drop(),
+                    1 => Unimock::new(CMock::$method.some_call(matching!()).returns($value).once()).no_verify_in_drop(),
+                    _ => Unimock::new(CMock::$method.next_call(matching!()).returns($value)).no_verify_in_drop(),
+                });
+                let outcome = match built {
+                    Err(msg) => Err(msg),
+                    Ok(u) => Ok(vh::obs::catch(|| format!("{:?}", u.$call()))),
+                };
+                $out.push((format!("{}/path{}", $label, path), want.clone(), outcome));
+            }
+        }};
+    }
+
+    /// (label, Debug of the configured value, Err(construction panic) | Ok(call result))
+    pub fn run() -> Vec<(String, String, Result<Result<String, String>, String>)> {
+        let mut out = vec![];
+        cells!(out, optres, optres, "Option<Result<&u32,String>>=None", None::<Result<u32, String>>);
+        cells!(out, optres, optres, "Option<Result<&u32,String>>=Some(Ok)", Some(Ok::<u32, String>(5)));
+        cells!(out, optres, optres, "Option<Result<&u32,String>>=Some(Err)", Some(Err::<u32, String>("e".to_string())));
+        cells!(out, res, res, "Result<&u32,String>=Ok", Ok::<u32, String>(5));
+        cells!(out, res, res, "Result<&u32,String>=Err", Err::<u32, String>("e".to_string()));
+        cells!(out, vecres, vecres, "Vec<Result<&u32,String>>=[]", Vec::<Result<u32, String>>::new());
+        cells!(out, vecres, vecres, "Vec<Result<&u32,String>>=[Ok,Err]", vec![Ok::<u32, String>(5), Err("e".to_string())]);
+        cells!(out, pollres, pollres, "Poll<Result<&u32,String>>=Pending", Poll::<Result<u32, String>>::Pending);
+        cells!(out, pollres, pollres, "Poll<Result<&u32,String>>=Ready(Err)", Poll::Ready(Err::<u32, String>("e".to_string())));
+        cells!(out, tup, tup, "(&u32,String)", (5u32, "s".to_string()));
+        cells!(out, optopt, optopt, "Option<Option<String>>=Some(Some)", Some(Some("s".to_string())));
+        cells!(out, optopt, optopt, "Option<Option<String>>=Some(None)", Some(None::<String>));
+        out
+    }
+}
+
 fn main() {
     silence_panics();
     let ctx = vh::explore::Ctx::from_args("C14");
@@ -104,11 +158,38 @@ fn main() {
             ),
         }
     }
+    // composite single-use returns: refused at construction, or delivered exactly as configured
+    let mut composite_refused = 0;
+    let mut composite_delivered = 0;
+    let comp = composite::run();
+    for (label, want, outcome) in &comp {
+        let ok = match outcome {
+            Err(msg) if !has_mutex && msg.contains("No Mutex API available") => {
+                composite_refused += 1;
+                true
+            }
+            Ok(Ok(got)) if got == want => {
+                composite_delivered += 1;
+                true
+            }
+            _ => false,
+        };
+        if !ok {
+            ctx.violation(
+                "no-mutex-feature-set",
+                &format!("composite single-use return {label}: configured {want}; expected a refusal at construction{} or exactly that value from the call, observed {outcome:?}", if has_mutex { " (not in this feature set)" } else { "" }),
+                J::obj().set("composite", label.as_str()),
+            );
+        }
+    }
     if has_mutex == false && refused == 0 {
         vacuous("vacuous: nothing was refused in the no-mutex feature set");
     }
     let cov = J::obj()
-        .set("evaluations", cells.len())
+        .set("evaluations", cells.len() + comp.len())
+        .set("composite_cells", comp.len())
+        .set("composite_refused_at_construction", composite_refused)
+        .set("composite_delivered_as_configured", composite_delivered)
         .set("distinct_nontrivial", refused + built)
         .set("rule", "every entry form x quantifier x {returns, answers_arc} at every position of a 3-clause mock, in the feature set without mutex: single-use returns are refused by Unimock::new, everything else constructs")
         .set("samples", J::Arr(vec![cells[0].to_json()]))
